@@ -219,6 +219,58 @@ func (p cfgPath) getValue(cfg *Config, opt *options, keepRefs bool) (value, Erro
 	return v, nil
 }
 
+// getForField looks up the setting a struct field is tagged with. A nil value
+// without error says the setting is absent (a name missing in an object, an
+// index behind the end of a list). A setting on the way that is no object -
+// a primitive value, a reference that does not resolve - is not an absent
+// setting but a fault of its own: its error is returned.
+//
+// keepRefs: the references the path leads through stay registered as being
+// evaluated when the call returns (the caller restores the active set).
+func (p cfgPath) getForField(cfg *Config, opt *options, keepRefs bool) (value, Error) {
+	cur := value(cfgSub{cfg})
+	for i, field := range p.fields {
+		if i > 0 && isNil(cur) {
+			// an explicit null on the way: the setting is absent, what is
+			// reported about it carries the source of that null
+			ctx := context{parent: cfgSub{cfg}, field: p.dotted()}
+			return &cfgNil{cfgPrimitive{ctx, cur.meta()}}, nil
+		}
+		if keepRefs {
+			cur, _ = derefConfig(opt, cur)
+		}
+		next, err := field.GetValue(opt, cur)
+		if err != nil {
+			if _, cerr := cur.toConfig(opt); cerr != nil {
+				if _, isIdx := field.(idxField); isIdx {
+					if _, lerr := cur.Len(opt); lerr == nil {
+						return nil, nil // a primitive value is a list of one element
+					}
+				}
+				return nil, err // cur is no object
+			}
+			if err.Reason() == ErrMissing {
+				return nil, nil
+			}
+			return nil, err
+		}
+		if next == nil {
+			return nil, nil
+		}
+		cur = next
+	}
+	return cur, nil
+}
+
+// dotted renders the path with dots, the way all messages spell paths.
+func (p cfgPath) dotted() string {
+	s := make([]string, 0, len(p.fields))
+	for _, f := range p.fields {
+		s = append(s, f.String())
+	}
+	return strings.Join(s, ".")
+}
+
 func (n namedField) GetValue(opts *options, elem value) (value, Error) {
 	cfg, err := elem.toConfig(opts)
 	if err != nil {
